@@ -98,7 +98,7 @@ def describe(tier):
             f"{len(ENC)} encoders {[e.name for e in ENC]}, each with its documented domain, an own encoder and the expected (type, label). "
             f"ALL stacks of height 1..{HEIGHT[tier]} x {len(PAYLOADS)} payloads (URL+exe, IP, e-mail+domain, Windows path, 600-byte padded text) x {len(EMBED)} embeddings x depth "
             f"limits {{height, height+1, 10}}, ALL stacks of height {H_PARTIAL[tier]} x 2 payloads x 2 embeddings at depth 10, every single encoder repeated 1..11 times, and every encoder around payloads of 1 kB .. 16 kB (thorough .. 70 kB, crossing 65536) with the indicators at the end "
-            "(depth limit 10 bites at layer 11). Stacks whose intermediate text leaves the next encoder's domain, and embeddings that are not neutral for the "
+            "(depth limit 10 bites at layer 11). Isolation histories: for EVERY entry i of the default registry (and list operations clear/reverse/del/append/insert/slice-assign) another default scanner's public `decoders` list is customised in place, then a brand-new default Multidecoder() must peel every height-1 stack and 3 height-2 stacks. Stacks whose intermediate text leaves the next encoder's domain, and embeddings that are not neutral for the "
             "outermost encoder (bare base64/hex next to LF-joined words; cmd with trailing text), are pruned and counted. Oracle = the stack itself: a chain "
             "of nested nodes, outermost first, node i has value = plaintext i and the type/label of layer i, the outermost covers exactly the blob; "
             "with depth >= height+1 every indicator found by scanning the plaintext payload alone is found beneath the innermost node; flatten() of the "
@@ -118,17 +118,55 @@ def plan(tier, seed):
     units += [("partial", tier, e.name) for e in ENC]
     units += [("repeat", e.name) for e in ENC if e.name not in ("psbytes",)]
     units += [("sizes", tier, e.name) for e in ENC]
+    units += [("isolation", i, ISO_PARTS) for i in range(ISO_PARTS)]
     return units
 
 
 _MD = None
+_OVERRIDE = None  # (tag, scanner) while an isolation history is being checked
+ISO_PARTS = 16
 
 
 def md():
     global _MD
+    if _OVERRIDE is not None:
+        return _OVERRIDE[1]
     if _MD is None:
         _MD = Multidecoder(streams.registry())
     return _MD
+
+
+def _raiser(data):
+    raise RuntimeError("decoder added to ANOTHER scanner's list")
+
+
+ISO_OPS = ["clear", "reverse", "del-first", "del-last", "append-raiser", "insert-raiser", "slice-assign-empty", "pop-all-but-keywords"]
+
+
+def iso_history(op):
+    """Customise ANOTHER default scanner in place through its public `decoders` list, then build a brand-new default scanner."""
+    other = Multidecoder()
+    d = other.decoders
+    if isinstance(op, int):
+        if op < len(d):
+            d.remove(d[op])
+    elif op == "clear":
+        d.clear()
+    elif op == "reverse":
+        d.reverse()
+    elif op == "del-first":
+        del d[0]
+    elif op == "del-last":
+        del d[-1]
+    elif op == "append-raiser":
+        d.append(_raiser)
+    elif op == "insert-raiser":
+        d.insert(0, _raiser)
+    elif op == "slice-assign-empty":
+        d[:] = []
+    elif op == "pop-all-but-keywords":
+        d[:] = [x for x in d if type(x).__name__ == "partial"]
+    return Multidecoder()
 
 
 def build(stack, payload):
@@ -199,10 +237,22 @@ _PAY = {}
 def payload_facts(payload, k):
     """What a scan of the plaintext payload alone finds with the depth that remains beneath the innermost layer."""
     k = min(k, 10)
-    if (payload, k) not in _PAY:
-        t = md().scan(payload, k)
-        _PAY[(payload, k)] = (indicators(t), t.flatten())
-    return _PAY[(payload, k)]
+    key = (payload, k, _OVERRIDE[0] if _OVERRIDE else None)
+    if key not in _PAY:
+        t = (_default_md() if _OVERRIDE else md()).scan(payload, k)
+        _PAY[key] = (indicators(t), t.flatten())
+    return _PAY[key]
+
+
+_DEF = None
+
+
+def _default_md():
+    """The reference for isolation units: a default scanner built before any history ran in this process."""
+    global _DEF
+    if _DEF is None:
+        _DEF = Multidecoder()
+    return _DEF
 
 
 def check(rec, stack, pi, ei, depth, tier_w):
@@ -218,6 +268,8 @@ def check(rec, stack, pi, ei, depth, tier_w):
         return
     data = pre + blob + suf
     w = {"kind": "stack", "stack": list(stack), "payload": pi, "embed": ei, "depth": depth}
+    if _OVERRIDE is not None:
+        w["after"] = _OVERRIDE[0]
     size = len(stack) * 100000 + len(data)
     rec.count("evaluations")
     rec.mark("states", (stack, pi, ei, depth), True)
@@ -310,6 +362,13 @@ def run_unit(unit, rec):
         rec.sample({"innermost": innermost, "height": h, "cases": n})
     elif kind == "sizes":
         run_sizes(rec, unit[1], unit[2])
+    elif kind == "isolation":
+        _default_md()
+        n_entries = len(_default_md().decoders)
+        ops = (list(range(n_entries)) + ISO_OPS)[unit[1]::unit[2]]
+        for op in ops:
+            run_isolation(rec, op)
+        rec.sample({"family": "isolation", "histories_on_another_default_scanner": [str(o) for o in ops], "then": "fresh Multidecoder() on every height-1 stack"})
     elif kind == "repeat":
         name = unit[1]
         for reps in range(1, 12):
@@ -321,6 +380,20 @@ def run_unit(unit, rec):
             for ei in (0, 1):
                 check(rec, stack, 0, ei, 10, None)
         rec.sample({"repeat": name, "layers": "1..11 at depth limit 10"})
+
+
+def run_isolation(rec, op):
+    """History: another default scanner is customised in place (op), THEN a new default Multidecoder() must peel every layer."""
+    global _OVERRIDE
+    _default_md()
+    _OVERRIDE = (f"customise-another-default-scanner:{op}", iso_history(op))
+    try:
+        for e in ENC:
+            check(rec, (e.name,), 5 if e.name == "psbytes" else 0, 1, 10, None)
+        for stack in (("hex", "b64"), ("rev", "concat+"), ("xml", "atob")):
+            check(rec, stack, 0, 2, 10, None)
+    finally:
+        _OVERRIDE = None
 
 
 SIZES = {"quick": (1000, 4096, 16385), "thorough": (1000, 4096, 16385, 65535, 65536, 65537, 70000)}
@@ -368,6 +441,16 @@ def run_sizes(rec, tier, name):
 def replay(w, rec):
     if w.get("kind") == "size":
         run_sizes(rec, "thorough" if w["n"] > 16385 else "quick", w["encoder"])
+        return
+    if w.get("kind") == "stack" and w.get("after"):
+        global _OVERRIDE
+        op = w["after"].split(":", 1)[1]
+        _default_md()
+        _OVERRIDE = (w["after"], iso_history(int(op) if op.isdigit() else op))
+        try:
+            check(rec, tuple(w["stack"]), w["payload"], w["embed"], w["depth"], None)
+        finally:
+            _OVERRIDE = None
         return
     if w.get("kind") == "stack":
         check(rec, tuple(w["stack"]), w["payload"], w["embed"], w["depth"], None)
